@@ -198,6 +198,84 @@ for _m in (1, 2, 3, 4, 5):
               % _m, out='depth > 6')((lambda m: lambda V: _self_ref_exact(V, m))(_m))
 
 
+class S0(Schema):
+    # no limit of its own: the limit comes from overriding runtime / function options
+    v: int = 0
+    c: Optional['S0'] = None
+    kids: List['S0'] = Field(default_factory=list)
+    by_key: Dict[str, 'S0'] = Field(default_factory=dict)
+    alt: Union[int, 'S0'] = 0
+
+
+OVERRIDE_FN = {}
+
+
+def override_fn(m):
+    if m not in OVERRIDE_FN:
+        import utype as _u
+
+        @_u.parse(options=Options(max_depth=m, override=True))
+        def take(s: S0):
+            return s
+        OVERRIDE_FN[m] = take
+    return OVERRIDE_FN[m]
+
+
+@ob('exact/runtime-override', marks=['accept', 'reject'], budget=(90, 300),
+    bounds='a self-referential Schema without a limit of its own, parsed (a) with S.__from__(x, options=Options(max_depth=m, '
+           'override=True)) and (b) as the parameter of @parse(options=Options(max_depth=m, override=True)); m in 1..4, depth d in 1..5, '
+           'route per level solver-picked (field, list index 0..1, mapping key "" / "k", union); a cycle of length 1..2 as well: '
+           'accepted <=> d <= m (d + 1 <= m through the function, whose parameter context is the outermost level), cycles always rejected with a depth error')
+def exact_runtime_override(V):
+    m = V.pick('m', [1, 2, 3, 4])
+    via = V.pick('via', ['__from__', 'function'])
+    routes = ['c', 'kids0', 'kids1', 'key_empty', 'key_k', 'alt']
+
+    def link(parent, k, child):
+        if k == 'c':
+            parent['c'] = child
+        elif k == 'kids0':
+            parent['kids'] = [child]
+        elif k == 'kids1':
+            parent['kids'] = [{'v': 9}, child]
+        elif k == 'key_empty':
+            parent['by_key'] = {'': child}
+        elif k == 'key_k':
+            parent['by_key'] = {'k': child}
+        else:
+            parent['alt'] = child
+    cyclic = V.bool('cyclic')
+    if cyclic:
+        n = V.pick('n', [1, 2])
+        nodes = [{'v': i} for i in range(n)]
+        for i in range(n):
+            link(nodes[i], V.pick('route%d' % i, routes), nodes[(i + 1) % n])
+        x, d = nodes[0], None
+    else:
+        d = V.pick('d', [1, 2, 3, 4, 5])
+        x = V.pick('leaf', [{'v': 1}, {'unknown': 1}])
+        for level in range(d - 1, 0, -1):
+            y = {'v': level}
+            link(y, V.pick('route%d' % level, routes if level <= 1 else ['c', 'kids0', 'key_empty']), x)
+            x = y
+    if via == '__from__':
+        r = attempt(S0.__from__, x, options=Options(max_depth=m, override=True))
+    else:
+        r = attempt(override_fn(m), x)
+    ok = r[0] == 'ok'
+    det = lambda: 'via %s max_depth=%d (override) %s input=%r accepted=%r%s' % (
+        via, m, 'cyclic' if cyclic else 'depth=%d' % d, x if not cyclic else '<cycle>', ok, '' if ok else ' error=%s' % type(r[1]).__name__)
+    V.check(r[0] != 'crash' or isinstance(r[1], exc.ParseError), 'depth:crash', det)
+    if cyclic:
+        V.check(r[0] == 'err' and _has_depth_error(r[1]), 'cyclic:' + ('accepted' if ok else 'wrong-error'), det)
+        V.cover('reject')
+        return
+    # (the decorated function's own parameter context is the outermost level: the limit counts it)
+    expect = (d + 1 <= m) if via == 'function' else (d <= m)
+    V.check(ok == expect, 'depth:' + ('rejected-within-limit' if expect else 'accepted-beyond-limit') + ':override', det)
+    V.cover('accept' if ok else 'reject')
+
+
 # ------------------------------------------------------------------ cost
 COUNT = [0]
 
